@@ -137,7 +137,11 @@ impl<'a> SolutionNode<'a> {
                         // the no_backtracking flag there also.
                         if let Some(head_node) = &(*raw_ptr).head_sn {
                             let raw_ptr2 = head_node.as_ptr();
-                            (*raw_ptr2).no_backtracking = true;
+                            // The head node may be this node (already flagged).
+                            // Writing through raw_ptr2 would alias &mut self.
+                            if !std::ptr::eq(raw_ptr2, self as *const Self) {
+                                (*raw_ptr2).no_backtracking = true;
+                            }
                         }
                         // Get the next parent.
                         option_parent = &(*raw_ptr).parent_node;
